@@ -103,6 +103,10 @@ func (c muxCfg) pset(kind string, p int) paramSet {
 			case "sps":
 				out = base[1]
 				out.pps = base[0].pps
+			case "notiming":
+				// a minimal SPS without VUI (no timing info, so no frame rate): Baseline 3.0, 352x288, written out bit by bit:
+				// sps_id 0, log2_max_frame_num 4, poc type 2, 1 reference frame, 22x18 macroblocks, frame_mbs_only, no cropping, no VUI
+				out = paramSet{sps: []byte{0x67, 0x42, 0xc0, 0x1e, 0xda, 0x05, 0x82, 0x59}, pps: base[0].pps, width: 352, height: 288, fps: "", codecStr: "avc1.42c01e"}
 			default:
 				out = base[1]
 			}
